@@ -77,6 +77,7 @@ SPECS = [
     ("y ~ center(x) + f:g:center(x)", "a"),
     ("y ~ poly(d, 2) + x", "a"),
     ("y ~ bs(x, knots=kn) + f", "a"),
+    ("y ~ f:g:C(d)", "a"),  # full rank needs helper terms with two categorical factors (their order must not depend on the hash seed)
     ("y ~ f + x + (1|g)", "c"),  # more than a thousand rows: two frames whose factor columns start and end alike ...
     ("y ~ f + x + (1|g)", "d"),  # ... but hold other levels in between  # 'kn' is an array of the caller whose entries are not in increasing order  # degenerate training data for the transform (two distinct points, degree 2)  # full rank needs a helper term (g:center(x)) that holds a stateful transform
 ]
